@@ -148,13 +148,16 @@ PROPS = {
     "C07": {
         "level": "model_checking",
         "engine": "explore (full configuration product)",
-        "technique": "exhaustive enumeration of the finite configuration matrix on the real client, server and transports (HTTP served in-process), against a reference negotiation function",
-        "claim": "8 requested versions (default, the 5 supported, an unknown older and newer string) x {in-memory, io pipes} x 3 advertised sets + SSE + streamable {stateful, stateless} x JSON responses x event store = 120 cells, each Connect+ListTools+CallTool: Connect fails only when the request is not mutually supported and no fallback applies (a modern or unknown-newer request against a server without modern overlap but with shared legacy versions must fall back to initialize and connect); otherwise the negotiated version is SDK-supported, servable by the transport (never 2026-07-28 on SSE/stateful), equals the request when mutually supported; discover is followed by an initialize fallback iff no modern overlap (observed on the wire); plus 135 scripted non-SDK servers (discover answers x initialize answers x requests): the negotiated version was offered by the server and is SDK-supported, or Connect fails",
+        "technique": "exhaustive enumeration of the finite configuration matrix on the real client, server and transports (HTTP served in-process), against a reference negotiation function; plus stateless model checking (controlled scheduler, delay-bounded) of a server/discover racing the set-up of its HTTP+SSE session",
+        "uses_vsched": True,
+        "claim": "8 requested versions (default, the 5 supported, an unknown older and newer string) x {in-memory, io pipes} x 3 advertised sets + SSE + streamable {stateful, stateless} x JSON responses x event store = 120 cells, each Connect+ListTools+CallTool: Connect fails only when the request is not mutually supported and no fallback applies (a modern or unknown-newer request against a server without modern overlap but with shared legacy versions must fall back to initialize and connect); otherwise the negotiated version is SDK-supported, servable by the transport (never 2026-07-28 on SSE/stateful), equals the request when mutually supported; discover is followed by an initialize fallback iff no modern overlap (observed on the wire); plus 135 scripted non-SDK servers (discover answers x initialize answers x requests): the negotiated version was offered by the server and is SDK-supported, or Connect fails; (E1) a raw HTTP+SSE peer POSTs server/discover the moment the endpoint event is out, while the GET is still inside Server.Connect: on every schedule within B<=4 (thorough 5) the answer never lists 2026-07-28",
         "note": "a custom transport's ProtocolVersionSupporter is only held against versions >= 2026-07-28 (it filters what server/discover advertises; the legacy initialize handshake does not consult it)",
         "parts": [
-            {"pkg": "mcp", "mode": "plain", "test": "TestVerifC07", "shards": 8},
+            {"pkg": "mcp", "mode": "plain", "test": "TestVerifC07", "shards": 8, "scenario_prefix": ""},
+            {"pkg": "mcp", "mode": "instr", "test": "TestVerifC07Race", "scenario_prefix": "sse/discover-races"},
+            {"pkg": "mcp", "mode": "race", "test": "TestVerifC07Race", "scenario_prefix": "free-race/", "free_runs": {"quick": 60, "thorough": 600}},
         ],
-        "assumptions": [],
+        "assumptions": E1_ASSUME,
     },
     "C08": {
         "level": "model_checking",
